@@ -11,32 +11,51 @@ Proof.
   - apply bytes_eqb_eq in E2. subst. rewrite bytes_eqb_refl in E1. discriminate.
 Qed.
 
-Lemma first_nonempty_same x n : first_nonempty (repeat [] n ++ [x]) = x.
-Proof. induction n; cbn; [destruct x; reflexivity|exact IHn]. Qed.
-
 Lemma lower_TX : lower k_TX_XID = k_tx_xid. Proof. reflexivity. Qed.
 Lemma lower_tx : lower k_tx_xid = k_tx_xid. Proof. reflexivity. Qed.
 Lemma canon_tx : canon k_tx_xid = canon k_TX_XID. Proof. reflexivity. Qed.
 
-(* a single header: found exactly under the accepted spellings, and then unchanged *)
-Lemma carried_single c k x : carried c [(k, x)] = if accepted c k then x else [].
+Lemma get_single c K k v :
+  get c K [(k, v)] = if bytes_eqb (norm c k) K then hd [] (vals v) else [].
+Proof. unfold get. cbn [flat_map fst snd]. rewrite app_nil_r. destruct (bytes_eqb (norm c k) K); reflexivity. Qed.
+
+(* a single header, whatever the shape of its value: found exactly under the accepted
+   spellings, and then the (first) string it holds, byte for byte *)
+Lemma carried_single c k v : carried c [(k, v)] = if accepted c k then hd [] (vals v) else [].
 Proof.
-  destruct c; unfold carried, normalise, extract, accepted; cbn [map fst snd lookup].
-  - rewrite lower_TX, lower_tx, (bytes_eqb_sym k_tx_xid).
-    destruct (bytes_eqb (lower k) k_tx_xid); destruct x; reflexivity.
-  - rewrite canon_tx, (bytes_eqb_sym (canon k_TX_XID)).
-    destruct (bytes_eqb (canon k) (canon k_TX_XID)); destruct x; reflexivity.
-  - rewrite (bytes_eqb_sym k_SEATA_XID), (bytes_eqb_sym (lower k_SEATA_XID)),
-            (bytes_eqb_sym k_TX_XID), (bytes_eqb_sym (lower k_TX_XID)), lower_TX.
+  unfold carried, extract, wanted, accepted. destruct c; cbn [map]; rewrite !get_single; cbn [norm].
+  - rewrite lower_TX, lower_tx.
+    destruct (bytes_eqb (lower k) k_tx_xid); destruct (hd [] (vals v)); reflexivity.
+  - rewrite canon_tx.
+    destruct (bytes_eqb (canon k) (canon k_TX_XID)); destruct (hd [] (vals v)); reflexivity.
+  - rewrite lower_TX.
     destruct (bytes_eqb k k_SEATA_XID), (bytes_eqb k (lower k_SEATA_XID)),
-             (bytes_eqb k k_TX_XID), (bytes_eqb k k_tx_xid); destruct x; reflexivity.
+             (bytes_eqb k k_TX_XID), (bytes_eqb k k_tx_xid); destruct (hd [] (vals v)); reflexivity.
 Qed.
 
-Lemma carrier_accepted c k x : accepted c k = true -> carried c [(k, x)] = x.
-Proof. intro H. now rewrite carried_single, H. Qed.
+Lemma carrier_accepted c k x : accepted c k = true ->
+  carried c [(k, AStr x)] = x /\ carried c [(k, AList [x])] = x.
+Proof. intro H. rewrite !carried_single, H. auto. Qed.
 
-Lemma carrier_roundtrip c x : carried c (inject c x) = x.
-Proof. destruct c; cbn; destruct x; reflexivity. Qed.
+Lemma get_head c K k x rest : bytes_eqb (norm c k) K = true -> get c K ((k, AStr x) :: rest) = x.
+Proof. unfold get. cbn [flat_map fst snd]. intros ->. reflexivity. Qed.
+
+Lemma first_nonempty_cons x l : x <> [] -> first_nonempty (x :: l) = x.
+Proof. destruct x; [congruence|reflexivity]. Qed.
+
+(* sender half then receiver half is the identity, whatever the outgoing context / request /
+   invocation already held (other keys, the same key with an older value, other spellings,
+   wrapped or ill-typed values) *)
+Lemma carrier_roundtrip c pre x : x <> [] -> carried c (inject c x pre) = x.
+Proof.
+  intro Hx. unfold carried, extract. destruct c; cbn [wanted inject map].
+  - rewrite get_head by reflexivity. now apply first_nonempty_cons.
+  - rewrite get_head by reflexivity. now apply first_nonempty_cons.
+  - rewrite get_head by reflexivity. now apply first_nonempty_cons.
+Qed.
+
+Lemma carrier_roundtrip_empty c : carried c (inject c [] []) = [].
+Proof. destruct c; reflexivity. Qed.
 
 (* every upper/lower-case spelling of TX_XID is accepted by the gRPC and gin receivers *)
 Lemma lower_b_idem c : lower_b (lower_b c) = lower_b c.
